@@ -259,21 +259,26 @@ class SendEventResponse(StreamingResponse[ServerSentEvent]):
                     g.close()  # type: ignore
 
         push_future = self.thread_pool.submit(push)
+        got_sentinel = False
 
         try:
             while not (push_future.done() and q.empty()):
                 try:
                     event = q.get(timeout=self.ping_interval)
                     if event is None:
+                        got_sentinel = True
                         break
                     yield build_bytes_from_sse(event, self.charset)
                 except queue.Empty:
                     yield b": ping\n\n"
         finally:
             should_stop = True
-            while not q.empty():
-                q.get_nowait()  # pragma: no cover
             if not push_future.cancel():
+                # `push` always puts the `None` sentinel last. Keep taking from
+                # the queue until it arrives, otherwise `push` stays blocked in
+                # `q.put` (the queue holds one item) while we wait for it here.
+                while not got_sentinel:
+                    got_sentinel = q.get() is None
                 exc = push_future.exception()
                 if exc is not None:
                     raise exc
